@@ -157,6 +157,7 @@ func AdmitAgentRecord(id int, deps [][]int, base string) Ev {
 	os.MkdirAll(dags, 0o755)
 	defer os.RemoveAll(dir)
 	file := filepath.Join(dags, fmt.Sprintf("adm%d.yaml", id))
+	defer removeSockLock(file)
 	marker := filepath.Join(dir, "executed")
 	y := "logDir: " + filepath.Join(dir, "logs") + "\nhandlerOn:\n  exit:\n    command: sh -c \"echo onExit >> " + marker +
 		"\"\n  failure:\n    command: sh -c \"echo onFailure >> " + marker + "\"\nsteps:\n"
